@@ -20,7 +20,14 @@ EXTRA = {"C01-2": ["C07"], "C04-1": ["C07"], "C06-2": ["C07"], "C03-b1": ["C07"]
          "C16-u1": ["C07"], "C16-u2": ["C07"], "C19-u1": ["C06"], "C19-u2": ["C07"], "C09-u1": ["C12"], "C09-u2": ["C10", "C13"],
          "C03-u1": ["C18"], "C03-u2": ["C07", "C08"], "C08-u1": ["C12"], "C08-u2": ["C13"],
          "C02-u2": ["C01"], "C04-u1": ["C18", "C05"], "C04-u2": ["C07", "C16"], "C07-u1": ["C08", "C16"], "C07-u2": ["C08"],
-         "C10-u1": ["C09", "C13"], "C10-u2": ["C05"], "C15-u1": ["C18", "C03"], "C15-u2": ["C05", "C18", "C04"]}
+         "C10-u1": ["C09", "C13"], "C10-u2": ["C05"], "C15-u1": ["C18", "C03"], "C15-u2": ["C05", "C18", "C04"],
+         "C01-v1": ["C02", "C06"], "C01-v2": ["C13", "C07"], "C02-v1": ["C01", "C06", "C09"], "C02-v2": ["C01", "C09"], "C03-v1": ["C05"],
+         "C03-v2": ["C05", "C19"], "C04-v1": ["C05"], "C04-v2": ["C13", "C07"], "C05-v1": ["C01", "C18"], "C05-v2": ["C13"],
+         "C06-v1": ["C01"], "C06-v2": ["C07"], "C07-v1": ["C12"], "C07-v2": ["C16"], "C08-v1": ["C05"], "C08-v2": ["C12"],
+         "C09-v1": ["C06", "C01"], "C09-v2": ["C12", "C10"], "C11-v1": ["C04"], "C11-v2": ["C13"], "C12-v1": ["C09"], "C12-v2": ["C09"],
+         "C13-v1": ["C08"], "C13-v2": ["C07"], "C15-v1": ["C14"], "C15-v2": ["C07", "C16"], "C17-v2": ["C13"], "C18-v1": ["C03", "C15"],
+         "C18-v2": ["C13"], "C19-v1": ["C06"], "C19-v2": ["C13"], "C20-v2": ["C12"], "C10-v1": ["C09", "C13"], "C10-v2": ["C09", "C13"],
+         "C16-v1": ["C07"], "C16-v2": ["C07"]}
 def run_one(name, checks):
     d = os.path.join(SEEDED, name)
     wt = tempfile.mkdtemp(prefix="hsv-mx-", dir="/tmp"); os.rmdir(wt)
